@@ -1,1 +1,2 @@
 import Generated.Format
+import Generated.Locks
